@@ -139,6 +139,7 @@ func exhMain(out, prop string, maxLen, coqBudget int, seed uint64) {
 	rec = func(used uint64) {
 		if len(word) > 0 {
 			h := exhHistory(word)
+			h.Debug = n%3 == 2
 			rn := newRunner(h)
 			res := rn.run()
 			n++
